@@ -92,8 +92,12 @@ fn show_case(es: &[Entry], line: &str) -> String {
     format!("{} | {}", t.join(" "), enc_str(line))
 }
 
-fn new_env(es: &[Entry]) -> Env<impl yash_semantics::Runtime + 'static> {
-    let mut env = Env::new_virtual();
+type VEnv = Env<Rc<yash_env::system::Concurrent<yash_env::VirtualSystem>>>;
+
+fn new_env(es: &[Entry]) -> (VEnv, Rc<RefCell<yash_env::system::r#virtual::SystemState>>) {
+    let system = yash_env::VirtualSystem::new();
+    let state = Rc::clone(&system.state);
+    let mut env = Env::with_system(Rc::new(yash_env::system::Concurrent::new(system)));
     // all real built-ins, as yash-cli installs them: the parser's declaration-utility glossary is the Env
     // (export/readonly/typeset = declaration utilities, command = neutral, anything else = not)
     env.builtins.extend(yash_builtin::iter());
@@ -104,7 +108,7 @@ fn new_env(es: &[Entry]) -> Env<impl yash_semantics::Runtime + 'static> {
                 .insert(HashEntry::new(e.name.clone(), e.value.clone(), e.global, Location::dummy("def")));
         }
     }
-    env
+    (env, state)
 }
 
 /// The bare `alias …` / `unalias …` simple commands of a command line (top-level items that are one
@@ -147,6 +151,12 @@ struct Parsed {
     origins: Vec<Vec<String>>,
     /// origin chains (innermost first) of all words of simple commands found in the result
     chains: Vec<Vec<String>>,
+    /// `Lexer::is_after_blank_ending_alias(i)` for every index of the buffer (asked when the chunk is flushed)
+    bits: Vec<bool>,
+    /// the private `is_line_continuation` flag of every buffer character (read from the lexer's `Debug` output)
+    lcs: Vec<bool>,
+    /// exit status and standard output of every executed alias / unalias command
+    results: Vec<(i32, Vec<u8>)>,
     /// the alias table at the end, sorted by name
     table: String,
     /// all alias names ever defined
@@ -184,7 +194,8 @@ fn collect_chains(list: &yash_syntax::syntax::List, out: &mut Vec<Vec<String>>) 
 }
 
 fn real_parse(es: &[Entry], line: &str, budget: usize, exec: bool) -> Parsed {
-    let mut env = new_env(es);
+    let (mut env, state) = new_env(es);
+    let mut results: Vec<(i32, Vec<u8>)> = vec![];
     let left = Cell::new(budget);
     let mut lexer = Lexer::with_code(line);
     let mut printed = Some(vec![]);
@@ -193,11 +204,21 @@ fn real_parse(es: &[Entry], line: &str, budget: usize, exec: bool) -> Parsed {
     let mut rounds = 0usize;
     let mut text = String::new();
     let mut origins: Vec<Vec<String>> = vec![];
-    fn push_origins(lexer: &Lexer, origins: &mut Vec<Vec<String>>) {
+    let mut bits: Vec<bool> = vec![];
+    let mut lcs: Vec<bool> = vec![];
+    let mut push_origins = |lexer: &Lexer, origins: &mut Vec<Vec<String>>| {
         for i in 0..lexer.index() {
             origins.push(chain_of(&lexer.location_range(i..i + 1)));
+            bits.push(lexer.is_after_blank_ending_alias(i));
         }
-    }
+        if exec {
+            // `SourceCharEx { value, is_line_continuation }`: one occurrence of the field per buffer character
+            let dbg = format!("{lexer:?}");
+            let flags: Vec<bool> =
+                dbg.split("is_line_continuation: ").skip(1).map(|r| r.starts_with("true")).collect();
+            lcs.extend(flags.into_iter().take(lexer.index()));
+        }
+    };
     let cell = RefCell::new(&mut env);
     loop {
         rounds += 1;
@@ -234,7 +255,10 @@ fn real_parse(es: &[Entry], line: &str, budget: usize, exec: bool) -> Parsed {
                 if exec {
                     let env = &mut **cell.borrow_mut();
                     for c in alias_commands(&list) {
+                        let before = yverif::shell::read_file(&state, "/dev/stdout").unwrap_or_default().len();
                         let _ = c.execute(env).now_or_never().expect("built-in never blocks");
+                        let after = yverif::shell::read_file(&state, "/dev/stdout").unwrap_or_default();
+                        results.push((env.exit_status.0, after[before.min(after.len())..].to_vec()));
                     }
                     for e in env.aliases.iter() {
                         if !names.contains(&e.0.name) {
@@ -264,7 +288,7 @@ fn real_parse(es: &[Entry], line: &str, budget: usize, exec: bool) -> Parsed {
         ka.cmp(&kb)
     });
     let table = if t.is_empty() { "-".to_string() } else { t.join(",") };
-    Parsed { printed, text, origins, chains, table, names }
+    Parsed { printed, text, origins, bits, lcs, chains, results, table, names }
 }
 
 /// run-length form of the per-character origins: `<count>x<chain>` per maximal run, chain = hex names
@@ -289,6 +313,21 @@ fn show_origins(o: &[Vec<String>]) -> String {
         .join(",")
 }
 
+/// run-length form of a bit vector: `<count>x<0|1>` per maximal run
+fn show_bits(o: &[bool]) -> String {
+    if o.is_empty() {
+        return "-".into();
+    }
+    let mut runs: Vec<(usize, bool)> = vec![];
+    for &c in o {
+        match runs.last_mut() {
+            Some((n, d)) if *d == c => *n += 1,
+            _ => runs.push((1, c)),
+        }
+    }
+    runs.iter().map(|(n, c)| format!("{n}x{}", if *c { 1 } else { 0 })).collect::<Vec<_>>().join(",")
+}
+
 fn show_printed(p: &Option<Vec<String>>) -> String {
     match p {
         None => "syntax-error".into(),
@@ -296,7 +335,31 @@ fn show_printed(p: &Option<Vec<String>>) -> String {
     }
 }
 
+/// every scalar value for which the real `is_blank` holds, as maximal ranges
+fn blank_ranges() -> String {
+    let mut out = vec![];
+    let mut start: Option<u32> = None;
+    for n in 0u32..0x110000 {
+        let b = char::from_u32(n).is_some_and(yash_syntax::parser::lex::is_blank);
+        match (start, b) {
+            (None, true) => start = Some(n),
+            (Some(lo), false) => {
+                out.push(format!("{:x}-{:x}", lo, n - 1));
+                start = None;
+            }
+            _ => {}
+        }
+    }
+    if let Some(lo) = start {
+        out.push(format!("{lo:x}-10ffff"));
+    }
+    out.join(",")
+}
+
 fn run_case(case: &str) -> (String, String) {
+    if case.trim() == "blank-sweep" {
+        return (format!("blank {}", blank_ranges()), "-".into());
+    }
     let Some((es, line)) = parse_case(case) else {
         return ("bad-case".into(), "-".into());
     };
@@ -325,7 +388,36 @@ fn run_case(case: &str) -> (String, String) {
                 } else {
                     "ok".into()
                 };
-                format!("ok {} C={} T={}", enc_str(&p.text), show_origins(&p.origins), p.table)
+                // the private line-continuation flags, on the real code alone: flagged characters are exactly
+                // the two characters of backslash-newline pairs, and one flag per buffer character was found
+                let tc: Vec<char> = p.text.chars().collect();
+                if oracle == "ok" {
+                    if p.lcs.len() != tc.len() {
+                        oracle = format!("FAIL:lc-flags-{}-for-{}-chars", p.lcs.len(), tc.len());
+                    } else {
+                        for i in 0..tc.len() {
+                            let pair_first = tc[i] == '\\' && i + 1 < tc.len() && tc[i + 1] == '\n' && p.lcs[i + 1];
+                            let pair_second = tc[i] == '\n' && i > 0 && tc[i - 1] == '\\' && p.lcs[i - 1];
+                            if p.lcs[i] && !(pair_first || pair_second) {
+                                oracle = format!("FAIL:lc-flag-on-char-{i}");
+                                break;
+                            }
+                        }
+                    }
+                }
+                let xs: Vec<String> = p
+                    .results
+                    .iter()
+                    .map(|(st, out)| format!("{st}:{}", enc_str(&String::from_utf8_lossy(out))))
+                    .collect();
+                format!(
+                    "ok {} C={} B={} T={} X={}",
+                    enc_str(&p.text),
+                    show_origins(&p.origins),
+                    show_bits(&p.bits),
+                    p.table,
+                    if xs.is_empty() { "-".to_string() } else { xs.join(",") }
+                )
             }
         }
     });
@@ -1045,5 +1137,56 @@ fn main() {
         out(&[e("a", false, "b "), e("b", false, lead), e("c", false, val)], &via_a("c"));
         // the probed word is defined but its alias is being processed (recursion guard at this position)
         out(&[e("a", true, &lead_b), e("c", false, &format!("{val} c"))], &via_a("c"));
+    }
+    // (9) every lexer mode a value can end in x source text that continues it (wave 3): the value ends inside a
+    // quotation, a command substitution, after a backslash (which then escapes the first character of the following
+    // source text, or forms a line continuation with a following newline), at a comment start, in the middle of an
+    // operator, with an IO_NUMBER candidate, with `name=` before a `(`, with a here-document operator; the tail is the
+    // source text right after the alias word (the word is always followed by a delimiter, so the tail starts with one)
+    let endings: [&str; 34] = [
+        "echo 'x", "echo \"x", "echo \"$(x", "echo $(x 'y", "echo `x", "echo x\\", "echo \\", "\\", "echo x #", "#",
+        "x &", "x |", "x ;", "x <", "x >", "x <<", "x >>", "x >|", "x <<-", "x 2", "x 12", "v=", "x v=", "x; v=",
+        "f", "if x; then y", "case x in y", "for i in", "{ x", "( x", "x && !", "x\n", "x \\\n", "cat <<E\nx\nE",
+    ];
+    let tails: [&str; 26] = [
+        " y' z", " y\" z", " y) z\" w", "' ) z", " y` z", " y", "\ny", "\n", " y; z", "\nz", "& y", "| y", "; y", "; esac",
+        "& z", "< y", "> y", ">y\nout\ny\n", "- y", ">f", "<f", "(p q)", "( ) { :; }", "; fi", ") z", ";; esac",
+    ];
+    for (i, en) in endings.iter().enumerate() {
+        for (j, tl) in tails.iter().enumerate() {
+            // the full cross product in the thorough tier, a diagonal band of it in the quick tier
+            if !o.thorough() && (i + 3 * j) % 4 != 0 {
+                continue;
+            }
+            out(&[e("a", false, en)], &format!("a{tl}"));
+            out(&[e("a", false, &format!("{en} ")), e("y", false, "Y"), e("z", true, "Z")], &format!("a{tl}"));
+            out(&[e("b", true, en)], &format!("x b{tl}"));
+        }
+    }
+    // (10) the alias / unalias built-ins themselves (wave 3): every argument form, with the exit status and the
+    // standard output of every executed command in the observation (`X=`), over tables whose names and values need
+    // every kind of quoting in the printed form (`yash_quote::quoted`: C07's model), followed by `alias` printing all
+    let b_tables: Vec<Vec<Entry>> = vec![
+        vec![],
+        vec![e("a", false, "x y"), e("b", true, "it's"), e("c", false, "c")],
+        vec![e("a", false, ""), e("b", false, "~x"), e("d", false, "a=b"), e("zz", false, "#c"), e("q r", false, "{x}")],
+        vec![e("a", false, "x\ny"), e("b", false, "'\"\\"), e("é", false, "あ "), e("c", false, "*?["), e("-x", false, "v")],
+        vec![e("a", false, "$x `y`"), e("b", false, "a;b|c&d"), e("c", false, "<>()"), e("if", false, "!"), e("", false, "e")],
+    ];
+    let b_cmds = [
+        "alias", "alias a", "alias zz", "alias a b zz c=1 c", "alias c=1 d=2", "alias -p", "alias -g x=y", "alias --",
+        "alias -- a", "alias -- -x=1", "alias -", "alias - a", "alias a=b -x", "alias 'q r'=s", "alias 'q r'",
+        "alias a=\"x'y\" b='x\"y' c='x y' d='' e='a\\b'", "alias a='x\ny'", "alias =v", "alias a==", "alias é=ü é",
+        "alias --help", "alias -- -- a", "alias a a a", "alias nn a nn=1 nn",
+        "unalias", "unalias a", "unalias zz", "unalias a a", "unalias a nn b", "unalias -a", "unalias -aa",
+        "unalias -a -a", "unalias -a --", "unalias -a a", "unalias -- a", "unalias -- -a", "unalias --", "unalias -x",
+        "unalias --all", "unalias - a", "unalias -ax", "unalias 'q r' ''", "unalias -- -x", "unalias a -a",
+        "alias a=1; alias a; unalias a; alias a", "alias a=1 &\nunalias b | x\n! alias c=3",
+    ];
+    for t in &b_tables {
+        for c in &b_cmds {
+            out(t, &format!("{c}\nalias"));
+            out(t, &format!("{c}; alias a b\nunalias c\nalias"));
+        }
     }
 }
